@@ -215,6 +215,11 @@ def run : History → Data → List Res
   | [], _ => []
   | (now, op) :: h, m => (step now op m).2 :: run h (step now op m).1
 
+/-- Final map of a sequential history. -/
+def exec : History → Data → Data
+  | [], m => m
+  | (now, op) :: h, m => exec h (step now op m).1
+
 /-! ## Concurrent callers: every call is one atomic step taken in lock order -/
 
 /-- Pop the next call of thread `i`. -/
@@ -231,6 +236,14 @@ def runSched (now : Nat) : List Nat → Data → List (List Op) → List (Nat ×
     match popThread progs i with
     | some x => (i, x.1, (step now x.1 m).2) :: runSched now is (step now x.1 m).1 x.2
     | none => runSched now is m progs
+
+/-- Map after the schedule. -/
+def execSched (now : Nat) : List Nat → Data → List (List Op) → Data
+  | [], m, _ => m
+  | i :: is, m, progs =>
+    match popThread progs i with
+    | some x => execSched now is (step now x.1 m).1 x.2
+    | none => execSched now is m progs
 
 /-- Programs left after the schedule. -/
 def remaining : List Nat → List (List Op) → List (List Op)
@@ -265,6 +278,30 @@ def lockedOK : List String → Bool → List Bool → Bool
     else if accessTokens.contains t then held && lockedOK ts held stk
     else lockedOK ts held stk
 
+/-- Number of critical sections of a method = number of (non-deferred) `Lock`/`RLock` calls. -/
+def sectionCount (sk : List String) : Nat :=
+  (sk.filter (fun t => t == "mu.Lock" || t == "mu.RLock")).length
+
+/-- Tokens from the last `mu.Lock` on. -/
+def lastSection : List String → List String → List String
+  | [], acc => acc
+  | t :: ts, acc => if t == "mu.Lock" then lastSection ts [t] else lastSection ts (acc ++ [t])
+
+/-- Every `delete` in the section is preceded (in that section) by the expiry re-check. -/
+def rechecksBeforeDelete : List String → Bool → Bool → Bool
+  | [], _, _ => true
+  | t :: ts, z, a =>
+    if t == "IsZero" then rechecksBeforeDelete ts true a
+    else if t == "After" then rechecksBeforeDelete ts z true
+    else if t == "delete" then z && a && rechecksBeforeDelete ts z a
+    else rechecksBeforeDelete ts z a
+
+/-- A method is ONE atomic step: it has at most one critical section, or exactly two where the
+second one only deletes after re-checking expiry under the write lock (the invisible `gcKey`). -/
+def atomicMethod (sk : List String) : Bool :=
+  decide (sectionCount sk ≤ 1) ||
+  (sectionCount sk == 2 && (lastSection sk []).contains "delete" && rechecksBeforeDelete (lastSection sk []) false false)
+
 /-- The skeletons of all modelled methods, regenerated from the source. -/
 def allSkeletons : List (List String) :=
   [Gen.Skel.Mem_Set, Gen.Skel.Mem_Get, Gen.Skel.Mem_Delete, Gen.Skel.Mem_Exists, Gen.Skel.Mem_SetList,
@@ -272,6 +309,51 @@ def allSkeletons : List (List String) :=
    Gen.Skel.Mem_GetHash, Gen.Skel.Mem_GetAllHash, Gen.Skel.Mem_DeleteHash, Gen.Skel.Mem_Incr,
    Gen.Skel.Mem_IncrBy, Gen.Skel.Mem_SetExpiration, Gen.Skel.Mem_GetExpiration, Gen.Skel.Mem_CleanupExpired,
    Gen.Skel.Mem_SetNX, Gen.Skel.Mem_CompareAndSwap, Gen.Skel.Mem_expirationFor]
+
+/-- Every modelled method of the current source is one atomic step (T2). -/
+def atomicCalls : Bool := allSkeletons.all atomicMethod
+
+/-! ## A sweep split into a scan and a later delete phase -/
+
+/-- Scan phase: the keys whose entry is expired at `now` (state unchanged). -/
+def scanExpired (now : Nat) (m : Data) : List String :=
+  (FMap.keys m).filter (fun k => match m.lookup k with | some it => expired now it | none => false)
+
+/-- Delete phase re-checking expiry for every collected key (what `CleanupExpired` does, and the
+only sound way to split it). -/
+def deleteChecked (now : Nat) (m : Data) (ks : List String) : Data :=
+  ks.foldl (fun acc k => (gcKey now acc k).1) m
+
+/-- Delete phase WITHOUT re-check (seeded regression "two-phase cleanup"). -/
+def deleteBlind (m : Data) (ks : List String) : Data := ks.foldl (fun acc k => acc.erase k) m
+
+/-- Steps of a history with internal sweep phases. -/
+inductive MStep where
+  | call (op : Op)
+  | sweepDelete (checked : Bool) (ks : List String)
+
+/-- Results of the calls of a history in which delete phases of earlier scans are interleaved. -/
+def runM : List (Nat × MStep) → Data → List Res
+  | [], _ => []
+  | (now, .call op) :: h, m => (step now op m).2 :: runM h (step now op m).1
+  | (now, .sweepDelete true ks) :: h, m => runM h (deleteChecked now m ks)
+  | (_, .sweepDelete false ks) :: h, m => runM h (deleteBlind m ks)
+
+/-- The calls of such a history. -/
+def callsOf : List (Nat × MStep) → History
+  | [] => []
+  | (now, .call op) :: h => (now, op) :: callsOf h
+  | (_, .sweepDelete _ _) :: h => callsOf h
+
+def allChecked : List (Nat × MStep) → Bool
+  | [] => true
+  | (_, .call _) :: h => allChecked h
+  | (_, .sweepDelete c _) :: h => c && allChecked h
+
+def monoM : List (Nat × MStep) → Bool
+  | [] => true
+  | [_] => true
+  | a :: b :: h => decide (a.1 ≤ b.1) && monoM (b :: h)
 
 /-- What thread `i` saw. -/
 def project (i : Nat) (tr : List (Nat × Op × Res)) : List Res :=
